@@ -674,6 +674,22 @@ func c13Mutants(seeds []c13Seed, pairs bool) []c13Mutant {
 			}
 		}
 	}
+	// M12: content after the root element (a document has ONE root and nothing but white space, comments and
+	// processing instructions after it)
+	for _, s := range seeds {
+		if s.BodyKind != "xml" || s.Req.Body == "" {
+			continue
+		}
+		for _, tail := range []string{"<<<garbage", "<x/>", "junk", "<D:propfind xmlns:D=\"DAV:\"><D:allprop/></D:propfind>", "</x>", "&amp;"} {
+			q := cloneReq(s.Req)
+			q.Body = strings.TrimRight(s.Req.Body, " \r\n\t") + tail
+			if _, err := indep.Parse([]byte(q.Body)); err != nil {
+				add(s, "M12-content-after-the-root", "unparseable-xml", q)
+			} else {
+				add(s, "M12-content-after-the-root", "generator-accepted-trailing-content", q)
+			}
+		}
+	}
 	// M9: every request that carries a body once more with the body length not announced (chunked)
 	n := len(out)
 	for i := 0; i < n; i++ {
